@@ -93,7 +93,7 @@ Example C12_history_nonvacuous :
   let ops := [UCreateCC (mkCCObj [99] (FOk (mkCidr V4 167772160 26)) FEmpty 4 (Some [107]) [] false 1 0 0);
               UCreateCC (mkCCObj [100] FBad (FOk (mkCidr V4 167772160 26)) (-3) None [] false 1 0 0);
               UCreateNode [110;49] [] [PGood (mkCidr V6 (2^120) 124) true; PBad];
-              Construct None None []; StartInformers; ProcCC UOk; ProcCC UOk; ProcNode [POk]; ProcNode [POk];
+              Construct None None [] []; StartInformers; ProcCC UOk; ProcCC UOk; ProcNode [POk]; ProcNode [POk];
               UCreateNode [110;50] [] []; DeliverNode; ProcNode [PFail; PTimeoutApplied; PFail; PFail];
               UDeleteNode [110;50]; DeliverNodeTombstone; RelistNodes; UDeleteNode [110;49]; RelistNodes] in
   Forall wf_op ops /\
